@@ -138,7 +138,7 @@ def sys0 (st0 : State α) : Sys α :=
 
 theorem StartOK.sysInv {cfg : Cfg} {den : Key → α} {st0 : State α} (h : StartOK cfg den st0) :
     SysInv cfg den (sys0 st0) := by
-  refine ⟨h.inv, h.sound, by simp [sys0, pendKeys], ?_, by simp [sys0], by simp, by simp [sys0], ?_, ?_, ?_, ?_, ?_, ?_⟩
+  refine ⟨h.inv, h.sound, by simp [sys0, pendKeys], ?_, by simp [sys0], by simp, by simp [sys0], ?_, ?_, ?_, ?_, ?_, ?_, ?_⟩
   · intro k
     simp [sys0, pendKeys, h.running]
   · simp [sys0, preKeys]
@@ -153,6 +153,15 @@ theorem StartOK.sysInv {cfg : Cfg} {den : Key → α} {st0 : State α} (h : Star
   · intro e he b hk
     simp only [sys0, List.mem_cons, List.not_mem_nil, or_false] at he
     rcases he with rfl | rfl <;> cases hk
+  · intro l1 l2 hl k hk
+    have hsub : postKeys l1 = [] := by
+      apply postKeys_nil_of_no_post
+      intro e he k' hk'
+      have he' : e ∈ (sys0 st0).log := by rw [hl]; exact List.mem_append_left _ he
+      simp only [sys0, List.mem_cons, List.not_mem_nil, or_false] at he'
+      rcases he' with rfl | rfl <;> cases hk'
+    rw [hsub] at hk
+    cases hk
 
 /-- acyclic graph: the "Found no accessible jobs" error is unreachable -/
 theorem StartOK.accessible {cfg : Cfg} {den : Key → α} {st0 : State α} (h : StartOK cfg den st0)
@@ -220,13 +229,14 @@ theorem reach_inv {cfg : Cfg} (P : Params α) {den : Key → α} (hden : IsDen c
     (∃ rest, BatchInv cfg den rest s') ∧ s'.st.dependencies = st0.dependencies ∧
     (∀ k, k ∈ s'.st.finished → P.fails k = false) ∧
     (o = .done → SysInv cfg den s' ∧ loopCond s'.st = false) ∧
-    (∀ k, o = .failed k → P.fails k = true ∧ ∃ rest', BatchInv cfg den rest' s' ∧ k ∈ rest'.map (·.1)) := by
+    (∀ k, o = .failed k → P.fails k = true ∧ ∃ rest', BatchInv cfg den rest' s' ∧ k ∈ rest'.map (·.1)) ∧
+    LogExt (sys0 st0).log s'.log := by
   rcases mainLoop_spec P hden hnw hcs rank hrank choices (sys0 st0) hs.sysInv with
-    hbad | ⟨s1, o1, hok, hdone, hstarved, hfailed, _, hdeps, hfok⟩
+    hbad | ⟨s1, o1, hok, hdone, hstarved, hfailed, _, hdeps, hfok, hlog⟩
   · rw [hbad] at hrun; cases hrun
   · rw [hok] at hrun
     cases hrun
-    refine ⟨?_, hdeps, ?_, hdone, hfailed⟩
+    refine ⟨?_, hdeps, ?_, hdone, hfailed, hlog⟩
     · cases o with
       | done => exact ⟨[], (hdone rfl).1⟩
       | starved => exact ⟨[], (hstarved rfl).1⟩
